@@ -23,6 +23,7 @@ import (
 	"net/url"
 	"os"
 	"path/filepath"
+	"reflect"
 	"regexp"
 	"sort"
 	"strings"
@@ -118,6 +119,32 @@ type vpCfg struct {
 	AdvertisePKCE string
 	EmailsViaSymlink bool // the e-mails file is reached through symlinks (versions are published by swapping a link)
 	UnsetClaimNames bool // structured provider configuration without e-mail / groups claim names
+
+	// options no listed property's requirement reads (spec/Perturb.tla: frame conditions); zero value = the option's default
+	Banner               string `json:"banner"`
+	Footer               string `json:"footer"`
+	Scope                string `json:"scope"`
+	Prompt               string `json:"prompt"`
+	AcrValues            string `json:"acrValues"`
+	ApprovalPrompt       string `json:"approvalPrompt"`
+	Resource             string `json:"resource"`
+	ProviderDisplayName  string `json:"providerDisplayName"`
+	RequestIDHeader      string `json:"requestIDHeader"`
+	PingPath             string `json:"pingPath"`
+	ReadyPath            string `json:"readyPath"`
+	PingUserAgent        string `json:"pingUserAgent"`
+	GCPHealthChecks      bool   `json:"gcpHealthChecks"`
+	UpstreamTimeoutSec   int    `json:"upstreamTimeoutSec"`
+	FlushIntervalMs      int    `json:"flushIntervalMs"`
+	RedisPassword        string `json:"redisPassword"`
+	RedisIdleTimeoutSec  int    `json:"redisIdleTimeoutSec"`
+	AllowQuerySemicolons bool   `json:"allowQuerySemicolons"`
+	RelativeRedirectURL  bool   `json:"relativeRedirectURL"`
+	SignatureKey         string `json:"signatureKey"`
+	SSLInsecure          bool   `json:"sslInsecure"`
+	Logging              bool   `json:"logging"` // request / auth / standard logging enabled (written to a discarding writer)
+	ProxyWebSocketsOff   bool   `json:"proxyWebSocketsOff"`
+	SkipIssuerCheck      bool   `json:"skipIssuerCheck"`
 	shareRedis *miniredis.Miniredis `json:"-"`
 	shareIdP   *vpIdP               `json:"-"`
 }
@@ -249,6 +276,7 @@ func vpBool(p *bool, def bool) bool {
 
 func vpNewWorld(cfg *vpCfg) (*vpWorld, error) {
 	vpGlobalSetup()
+	cfg = vpApplyPerturb(cfg)
 	w := &vpWorld{cfg: cfg, ups: map[string]*vpUpstream{}}
 	tmp, err := os.MkdirTemp(vpWorkDir(), "w")
 	if err != nil {
@@ -296,6 +324,14 @@ func vpNewWorld(cfg *vpCfg) (*vpWorld, error) {
 		lp.OIDCExtraAudiences = cfg.ExtraAudiences
 	}
 	lp.SkipClaimsFromProfileURL = cfg.SkipClaimsProfile
+	if cfg.Scope != "" {
+		lp.Scope = cfg.Scope
+	}
+	lp.Prompt, lp.AcrValues, lp.ApprovalPrompt, lp.ProtectedResource = cfg.Prompt, cfg.AcrValues, cfg.ApprovalPrompt, cfg.Resource
+	if cfg.ProviderDisplayName != "" {
+		lp.ProviderName = cfg.ProviderDisplayName
+	}
+	lp.InsecureOIDCSkipIssuerVerification = cfg.SkipIssuerCheck
 	lp.AllowedGroups = cfg.AllowedGroups
 	if cfg.StaticKeys || cfg.JWKSURLOnly {
 		lp.SkipOIDCDiscovery = true
@@ -407,6 +443,36 @@ func vpNewWorld(cfg *vpCfg) (*vpWorld, error) {
 	if cfg.RedirectURL != "" {
 		o.RawRedirectURL = cfg.RedirectURL
 	}
+	o.Templates.Banner, o.Templates.Footer = cfg.Banner, cfg.Footer
+	if cfg.RequestIDHeader != "" {
+		o.Logging.RequestIDHeader = cfg.RequestIDHeader
+	}
+	if cfg.PingPath != "" {
+		o.PingPath = cfg.PingPath
+	}
+	if cfg.ReadyPath != "" {
+		o.ReadyPath = cfg.ReadyPath
+	}
+	o.PingUserAgent = cfg.PingUserAgent
+	o.GCPHealthChecks = cfg.GCPHealthChecks
+	o.AllowQuerySemicolons = cfg.AllowQuerySemicolons
+	o.RelativeRedirectURL = cfg.RelativeRedirectURL
+	o.SignatureKey = cfg.SignatureKey
+	o.SSLInsecureSkipVerify = cfg.SSLInsecure
+	if cfg.UpstreamTimeoutSec > 0 {
+		lo.LegacyUpstreams.Timeout = time.Duration(cfg.UpstreamTimeoutSec) * time.Second
+	}
+	if cfg.FlushIntervalMs > 0 {
+		lo.LegacyUpstreams.FlushInterval = time.Duration(cfg.FlushIntervalMs) * time.Millisecond
+	}
+	if cfg.ProxyWebSocketsOff {
+		lo.LegacyUpstreams.ProxyWebSockets = false
+	}
+	if cfg.Logging {
+		logger.SetStandardEnabled(true)
+		logger.SetAuthEnabled(true)
+		logger.SetReqEnabled(true)
+	}
 
 	if cfg.ForceHTTPS {
 		// force-https needs a TLS listener address; a throw-away certificate and an ephemeral port
@@ -428,6 +494,7 @@ func vpNewWorld(cfg *vpCfg) (*vpWorld, error) {
 		w.mr = cfg.shareRedis
 		o.Session.Type = options.RedisSessionStoreType
 		o.Session.Redis.ConnectionURL = "redis://" + w.mr.Addr()
+		o.Session.Redis.Password = cfg.RedisPassword // the server requires what the instance that created it configured
 	} else if cfg.Store == "redis" {
 		mr := miniredis.NewMiniRedis()
 		if err := mr.Start(); err != nil {
@@ -437,6 +504,13 @@ func vpNewWorld(cfg *vpCfg) (*vpWorld, error) {
 		w.redis = vpInstallRedisHook(mr)
 		o.Session.Type = options.RedisSessionStoreType
 		o.Session.Redis.ConnectionURL = "redis://" + mr.Addr()
+		if cfg.RedisPassword != "" {
+			mr.RequireAuth(cfg.RedisPassword)
+			o.Session.Redis.Password = cfg.RedisPassword
+		}
+	}
+	if cfg.Store == "redis" && cfg.RedisIdleTimeoutSec > 0 {
+		o.Session.Redis.IdleTimeout = cfg.RedisIdleTimeoutSec
 	}
 
 	// upstreams
@@ -538,6 +612,63 @@ func vpNewWorld(cfg *vpCfg) (*vpWorld, error) {
 	w.proxy = p
 	w.opts = opts
 	return w, nil
+}
+
+// vpApplyPerturb merges the option settings named by VP_PERTURB (a JSON object of vpCfg fields, produced by TLC from
+// spec/Perturb.tla) into a copy of the configuration: only fields the family left at their zero value are set (legacy header
+// flags key by key), so the family's own dimensions always win. The requirement of the family is, by the frame condition
+// stated in Perturb.tla, independent of these options.
+var vpPerturbOnce sync.Once
+var vpPerturbRaw map[string]json.RawMessage
+
+func vpApplyPerturb(cfg *vpCfg) *vpCfg {
+	vpPerturbOnce.Do(func() {
+		if s := os.Getenv("VP_PERTURB"); s != "" {
+			if err := json.Unmarshal([]byte(s), &vpPerturbRaw); err != nil {
+				panic("VP_PERTURB: " + err.Error())
+			}
+		}
+	})
+	if len(vpPerturbRaw) == 0 {
+		return cfg
+	}
+	c := *cfg
+	if cfg.Legacy != nil {
+		c.Legacy = map[string]bool{}
+		for k, v := range cfg.Legacy {
+			c.Legacy[k] = v
+		}
+	}
+	var d vpCfg
+	b, _ := json.Marshal(vpPerturbRaw)
+	if err := json.Unmarshal(b, &d); err != nil {
+		panic("VP_PERTURB: " + err.Error())
+	}
+	cv, dv := reflect.ValueOf(&c).Elem(), reflect.ValueOf(&d).Elem()
+	for i := 0; i < cv.NumField(); i++ {
+		f := cv.Type().Field(i)
+		if !f.IsExported() || dv.Field(i).IsZero() {
+			continue
+		}
+		if f.Name == "Legacy" {
+			if c.Legacy == nil {
+				c.Legacy = map[string]bool{}
+			}
+			for k, v := range d.Legacy {
+				if _, ok := c.Legacy[k]; !ok {
+					c.Legacy[k] = v
+				}
+			}
+			continue
+		}
+		if cv.Field(i).IsZero() {
+			cv.Field(i).Set(dv.Field(i))
+		}
+	}
+	if c.Store != "redis" {
+		c.RedisPassword, c.RedisIdleTimeoutSec = "", 0
+	}
+	return &c
 }
 
 func vpHeaders(hs []vpHeaderCfg) []options.Header {
